@@ -17,6 +17,7 @@ import (
 	"go.uber.org/zap/zapcore"
 
 	"github.com/celestiaorg/go-header"
+	"github.com/celestiaorg/go-header/internal/verifhook"
 )
 
 var log = logging.Logger("header/store")
@@ -251,6 +252,7 @@ func (s *Store[H]) GetByHeight(ctx context.Context, height uint64) (H, error) {
 	if h, err := s.getByHeight(ctx, height); err == nil {
 		return h, nil
 	}
+	verifhook.Yield(ctx, "reader.missed")
 
 	// if the requested 'height' was not yet published
 	// we subscribe to it
@@ -262,6 +264,7 @@ func (s *Store[H]) GetByHeight(ctx context.Context, height uint64) (H, error) {
 	// which means the requested 'height' should be present
 	//
 	// check if the requested header is not yet written on disk
+	verifhook.Yield(ctx, "reader.woken")
 
 	return s.getByHeight(ctx, height)
 }
@@ -449,20 +452,26 @@ func (s *Store[H]) flushLoop(ctx context.Context) {
 	defer close(s.writesDn)
 
 	flush := func(headers []H) {
+		verifhook.Yield(ctx, "flush.begin")
 		// add headers to the pending and ensure they are accessible
 		// before Head or Tail can point at them
 		s.pending.Append(headers...)
+		verifhook.Yield(ctx, "flush.appended")
 		s.ensureInit(headers)
+		verifhook.Yield(ctx, "flush.inited")
 		// always inform heightSub about new headers seen.
 		s.heightSub.Notify(getHeights(headers...)...)
+		verifhook.Yield(ctx, "flush.notified")
 		// advance head and tail if we don't have gaps.
 		// TODO(@Wondertan): Beware of the performance penalty of this approach, which always makes a at least one
 		// datastore lookup for both Tail and Head.
 		s.advanceHead(ctx)
+		verifhook.Yield(ctx, "flush.advanced")
 		s.recedeTail(ctx)
 		// don't flush and continue if pending batch is not grown enough,
 		// and Store is not stopping(headers == nil)
 		if s.pending.Len() < s.Params.WriteBatchSize && headers != nil {
+			verifhook.Yield(ctx, "flush.done")
 			return
 		}
 
@@ -491,6 +500,7 @@ func (s *Store[H]) flushLoop(ctx context.Context) {
 		s.metrics.flush(ctx, time.Since(startTime), s.pending.Len(), false)
 		// reset pending
 		s.pending.Reset()
+		verifhook.Yield(ctx, "flush.done")
 	}
 
 	for {
@@ -619,6 +629,7 @@ func (s *Store[H]) advanceHead(ctx context.Context) {
 	newHead, changed := s.nextHead(ctx)
 	if changed {
 		s.contiguousHead.Store(&newHead)
+		verifhook.Yield(ctx, "flush.headStored")
 		s.heightSub.SetHeight(newHead.Height())
 		log.Infow("new head", "height", newHead.Height(), "hash", newHead.Hash())
 		s.metrics.newHead(newHead.Height())
